@@ -12,9 +12,9 @@ ARCH = [{"bin1": "x86_64", "bin2": "ppc64le", "src": "src", "unknown": "x86-64"}
         {"bin1": "noarch", "bin2": "s390x", "src": "src", "unknown": ""}]
 PATHS = {"rel1": "Server/x86_64/os/repodata/modules.yaml", "rel2": "mods/other.yaml", "abs": "/abs/modules.yaml", "empty": "", "int": 5}
 RPMTOK = {"r1": "httpd-0:2.4.6-80.x86_64", "r2": "mod_ssl-1:2.4.6-80.x86_64"}
-SIZES = {"s1": 1234, "s2": (1 << 33) + 5}
+SIZES = {"s1": 1234, "s2": (1 << 33) + 5, "s0": 0}
 # "two": types deliberately NOT in alphabetical insertion order
-CKS = {"one": {"sha256": "a" * 64}, "two": {"sha256": "c" * 64, "md5": "b" * 32, "SHA1": "d" * 40}, "notadict": ["sha256", "x"]}
+CKS = {"one": {"sha256": "a" * 64}, "two": {"sha256": "c" * 64, "md5": "b" * 32, "SHA1": "d" * 40}, "notadict": ["sha256", "x"], "nosums": {}}
 
 
 def uid_arg(m, form, mods):
